@@ -249,13 +249,13 @@ class Scheduler:
             self.step(choice)
         return "steps"
 
-    def drain_daemons(self, max_steps: int = 10000) -> None:
-        """Let background actors (history writers) run to completion, in spawn order."""
+    def drain_daemons(self, max_steps: int = 10000, reverse: bool = False) -> None:
+        """Let background actors (history writers) run to completion, in (reverse) spawn order."""
         for _ in range(max_steps):
             en = [n for n in self.enabled()]
             if not en:
                 return
-            self.step(en[0])
+            self.step(en[-1] if reverse else en[0])
 
 
 # ---------------------------------------------------------------------------
